@@ -140,6 +140,7 @@ type Engine struct {
 	inGoroutine int
 	inputs      []*inputInfo
 	inputByName map[string]*inputInfo
+	smallInts   map[*Term]bool // 64-bit inputs assumed (vIntRange) to lie within +-2^53
 	mapOrderCtr int
 	clock       *Term // virtual time (ns)
 	sleeps      []*Term
@@ -710,6 +711,7 @@ func (e *Engine) runPath(prefix []Dec) (end pathEnd) {
 	e.inGoroutine = 0
 	e.inputs = nil
 	e.inputByName = map[string]*inputInfo{}
+	e.smallInts = map[*Term]bool{}
 	e.mapOrderCtr = 0
 	e.envCtr = 0
 	e.clock = nil
@@ -1043,3 +1045,6 @@ func writeJSON(path string, v interface{}) error {
 	}
 	return os.WriteFile(path, b, 0o644)
 }
+
+// smallInt: t is a 64-bit input the harness bounded within +-2^53 (so that float64(t) is exact).
+func (e *Engine) smallInt(t *Term) bool { return t.IsConst() || e.smallInts[t] }
